@@ -157,6 +157,46 @@ fn check_wrong_kind(v: &Value) -> Verdict {
     Ok(())
 }
 
+/// collections whose elements are Values (of every kind, none included): into a Value and back, every entry kept
+fn check_value_collections(v: &Value) -> Verdict {
+    let fail = |what: &str, got: String| Err(Issue::new(format!("convert:collection:{what}"), format!("element {}: {got}", show_value(v))));
+    let entries: Vec<(String, Value)> = vec![("a".into(), v.clone()), ("n".into(), Value::None), ("z".into(), v.clone()), ("".into(), Value::None)];
+    let bt: BTreeMap<String, Value> = entries.iter().cloned().collect();
+    let hm: HashMap<String, Value> = entries.iter().cloned().collect();
+    let opt: BTreeMap<&str, Option<Value>> = [("some", Some(v.clone())), ("none", None)].into_iter().collect();
+    let same_map = |m: &BTreeMap<String, Value>, want: &BTreeMap<String, Value>| {
+        m.len() == want.len() && want.iter().all(|(k, x)| m.get(k).map(|y| same_value(x, y, true)).unwrap_or(false))
+    };
+    for (what, val) in [("From<BTreeMap<String,Value>>", Value::from(bt.clone())), ("From<HashMap<String,Value>>", Value::from(hm))] {
+        match &val {
+            Value::Map(m) if same_map(m, &bt) => {}
+            other => return fail(what, show_value(other)),
+        }
+        match BTreeMap::<String, Value>::try_from(val.clone()) {
+            Ok(back) if same_map(&back, &bt) => {}
+            other => return fail("BTreeMap<String,Value> back", format!("{other:?}")),
+        }
+        match HashMap::<String, Value>::try_from(val.clone()) {
+            Ok(back) if same_map(&back.clone().into_iter().collect(), &bt) => {}
+            other => return fail("HashMap<String,Value> back", format!("{other:?}")),
+        }
+    }
+    match Value::from(opt) {
+        Value::Map(m) if m.len() == 2 && m.get("some").map(|x| same_value(x, v, true)).unwrap_or(false) && matches!(m.get("none"), Some(Value::None)) => {}
+        other => return fail("From<BTreeMap<&str,Option<Value>>>", show_value(&other)),
+    }
+    let list = vec![v.clone(), Value::None, v.clone()];
+    match Value::from(list.clone()) {
+        Value::Vec(xs) if xs.len() == 3 && same_value(&xs[0], v, true) && matches!(xs[1], Value::None) && same_value(&xs[2], v, true) => {}
+        other => return fail("From<Vec<Value>>", show_value(&other)),
+    }
+    match Value::from(vec![Some(v.clone()), None]) {
+        Value::Vec(xs) if xs.len() == 2 && same_value(&xs[0], v, true) && matches!(xs[1], Value::None) => {}
+        other => return fail("From<Vec<Option<Value>>>", show_value(&other)),
+    }
+    Ok(())
+}
+
 /// scalar round trips other than integers
 fn check_scalar_roundtrip(v: &Value) -> Verdict {
     // options: Some(v) is v, None is Value::None
@@ -395,6 +435,15 @@ pub fn run(ctx: &Ctx) {
     for t in ["2015-07-30T03:26:13Z", "2015-07-30T03:26:13+02:00", "1", "-1", "1.5", "true", "none", "PT1S", "[i1]", "{}", "", "i1", "d1.5"] {
         pool.push(Value::String(t.to_string()));
     }
+    // values of one kind shaped like the contents of another: lists of [key, value] pairs, maps keyed 0..n, singletons
+    let pair = |k: &str, v: Value| Value::Vec(vec![Value::String(k.into()), v]);
+    pool.push(Value::Vec(vec![pair("width", Value::Int(3)), pair("height", Value::Int(4))]));
+    pool.push(Value::Vec(vec![pair("a", Value::String("x".into()))]));
+    pool.push(Value::Vec(vec![pair("a", Value::Int(1)), pair("a", Value::Int(2))]));
+    pool.push(Value::Map([("0".to_string(), Value::Int(1)), ("1".to_string(), Value::Int(2))].into_iter().collect()));
+    pool.push(Value::Vec(vec![Value::Int(5)]));
+    pool.push(Value::Vec(vec![Value::String("2015-07-30T03:26:13Z".into())]));
+    pool.push(Value::Map([("secs".to_string(), Value::Int(1)), ("nanos".to_string(), Value::Int(0))].into_iter().collect()));
     for n in [1usize, 31, 32, 33, 64, 65, 255, 256, 257, 1000] {
         pool.push(Value::Vec((0..n as i128).map(Value::Int).collect()));
         pool.push(Value::Vec((0..n).map(|i| Value::String(format!("s{i}"))).collect()));
@@ -412,6 +461,7 @@ pub fn run(ctx: &Ctx) {
                 acc.sample(&format!("kind:{}", type_name(v)), || show_value(v));
             }
             check_wrong_kind(v)?;
+            check_value_collections(v)?;
             check_scalar_roundtrip(v)
         },
         |i| json!({"value": value_to_json(&pool[i as usize])}),
@@ -428,6 +478,7 @@ pub fn run(ctx: &Ctx) {
                 acc.case(&format!("rv:{}", type_name(&v)), true, || show_value(&v));
             }
             check_wrong_kind(&v)?;
+            check_value_collections(&v)?;
             check_scalar_roundtrip(&v)
         },
         |bytes| json!({"value": value_to_json(&gen::gen_value(&mut Dec::new(bytes), 2))}),
